@@ -14,3 +14,5 @@ python3 -c "
 import sys; sys.path.insert(0,'tools'); import extract_consts
 ok,msg = extract_consts.regenerate('/repo','lean/SyModel/Generated/Consts.lean'); print('consts', ok, msg)"
 cd lean && lake build
+# every property module (53 s cold on 16 cores), so that no quick check pays for a cold proof build
+lake build $(ls SyModel/Props/*.lean | sed 's#/#.#g; s#\.lean$##')
